@@ -38,10 +38,11 @@ BASE = {
     'Seps': [''],
     'Labels': ['', 'l'],
     'UserSkipG': [],
+    'ExtraQueries': [],
     'Budget': 3, 'MaxDepth': 3, 'MaxSib': 3, 'MaxArgs': 3,
 }
 SETS = ['TextPool', 'MathTextPool', 'ComPool', 'CmdNames', 'EnvNames', 'ListNames', 'MEnvNames', 'VerbNames', 'VerbBodies',
-        'Seps', 'Labels', 'UserSkipG']
+        'Seps', 'Labels', 'UserSkipG', 'ExtraQueries']
 INV_ALL = ['C01_RoundTrip', 'C01_Slices', 'C02_Structure', 'C03_Search', 'C13_Positions', 'OutcomeIsDiagnostic', 'StepBound']
 
 
